@@ -116,6 +116,17 @@ Definition base_case (suffix rel : str) : Z * str :=
   let base_path := path_steps [47] (split_seps (path_part inp)) in
   predict base_path rel.
 
+(* ---- full reference resolution (C17/UrlFull.v), compared with the real url crate on raw references ----------
+   [resolve_case]: (0, path, []) = the base's scheme and authority with this path; (1, scheme, authority text) =
+   another authority; (2, scheme, rest) = a file: / non-special URL *)
+From RM Require Import C17.UrlFull.
+Definition resolve_case (base_scheme base_path reference : str) : Z * str * str :=
+  match url_resolve base_scheme base_path reference with
+  | JSame q => (0, q, [])
+  | JAuthority s a => (1, s, a)
+  | JOpaque s r => (2, s, r)
+  end.
+
 (* ---- filesystem probe predictions (Gen/C17Flow.v) ---------------------------------------
    What the consumers return / create for a module, read off the provenance terms the flow translator derived
    from the source: the string joined at the RCacheDir site of fetch_lookup (HttpSymbolSupplier::locate_file
